@@ -186,6 +186,9 @@ pub struct CaseReport {
     pub families: BTreeMap<String, u64>,
     #[serde(default)]
     pub known_hits: BTreeMap<String, u64>,
+    /// event-log hash of every run of the case, in execution order (determinism self-test)
+    #[serde(default)]
+    pub run_hashes: Vec<u64>,
 }
 
 #[derive(Clone, Debug, Serialize, Deserialize)]
@@ -251,6 +254,7 @@ impl Monitor for MonBox {
 
 fn absorb(rep: &mut CaseReport, scn: &Scenario, r: &RunResult, nworkers: usize) {
     rep.runs += 1;
+    rep.run_hashes.push(mix(&[r.log_hash, r.interleaving_hash, r.steps]));
     rep.sim_ms += r.sim_ms;
     rep.steps += r.steps;
     rep.msgs += r.msgs;
